@@ -94,6 +94,9 @@ def check_location(rep, files, main='t.case'):
         for j, (a, b) in enumerate(zip(actual, src)):
             # the last quoted line may be cut where the parser stopped (the report quotes the source consumed up
             # to the error, right-stripped): a non-empty prefix of the line is a true quotation of it
+            # the first quoted line starts at the instruction (the indentation of the line is not quoted)
+            if j == 0:
+                a, b = a.lstrip(), b.lstrip()
             same = a == b or (a.strip() == '' and b.strip() == '') or \
                    (j == len(src) - 1 and b.strip() != '' and a.startswith(b.rstrip()))
             if not same:
